@@ -2777,7 +2777,26 @@ func suiteC19(s *Shard, n int) {
 			h.Stops = append(st, h.Stops[k:]...)
 		}
 		ops = append(ops, h)
-		ops = append(ops, GenOp{Kind: "call", Call: Call{Name: "start", F: fl(-32, -32)}}, GenOp{Kind: "call", Call: Call{Name: "L", F: fl(32, -32)}}, GenOp{Kind: "call", Call: Call{Name: "L", F: fl(32, 32)}}, GenOp{Kind: "call", Call: Call{Name: "L", F: fl(-32, 32)}}, GenOp{Kind: "call", Call: Call{Name: "Z"}})
+		square := []GenOp{{Kind: "call", Call: Call{Name: "start", F: fl(-32, -32)}}, {Kind: "call", Call: Call{Name: "L", F: fl(32, -32)}}, {Kind: "call", Call: Call{Name: "L", F: fl(32, 32)}}, {Kind: "call", Call: Call{Name: "L", F: fl(-32, 32)}}, {Kind: "call", Call: Call{Name: "Z"}}}
+		ops = append(ops, square...)
+		if len(h.Stops) >= 2 && len(h.Stops) < 30 && r.Chance(25) {
+			// the same stop list (the very same slice) given again later on the same Generator — after the graphic was
+			// reset, or after other writes went over the stop registers: every call of a helper stores its stops (round 6,
+			// C19-K: a helper that recognises the slice it stored last and skips storing it again)
+			if r.Bool() {
+				ops = append(ops, GenOp{Kind: "call", Call: Call{Name: "reset", VB: ivg.DefaultViewBox, Pal: ivg.DefaultPalette}})
+			} else {
+				ops = append(ops, GenOp{Kind: "call", Call: Call{Name: "csel", U8: 10}}, GenOp{Kind: "call", Call: Call{Name: "nsel", U8: 10}})
+				for k := 1 + r.Intn(4); k > 0; k-- {
+					ops = append(ops, GenOp{Kind: "call", Call: Call{Name: "creg", Incr: true, Col: ivg.RGBAColor(r.Premul())}},
+						GenOp{Kind: "call", Call: Call{Name: "nreg", Incr: true, F: fl(float32(r.Intn(8)) / 8)}})
+				}
+				ops = append(ops, GenOp{Kind: "call", Call: Call{Name: "csel", U8: uint8(r.Intn(10))}}, GenOp{Kind: "call", Call: Call{Name: "nsel", U8: uint8(r.Intn(4))}})
+			}
+			h2 := h // same Stops slice
+			ops = append(ops, h2)
+			ops = append(ops, square...)
+		}
 		line := GenCase(ops)
 		obs := s.EmitRun(line)
 		s.Sig("g19:" + h.Kind + fmt.Sprint(len(h.Stops) > 58, strings.Contains(obs, "CSEL_used")))
